@@ -536,11 +536,24 @@ func runClientPart(c *mc.Ctx) {
 
 func replayClient(c *mc.Ctx, cs XCase) {
 	b, _ := json.Marshal(cs)
-	cmd := exec.Command(os.Args[0], "list")
+	ctx, cancel := context.WithTimeout(context.Background(), 3*time.Minute)
+	defer cancel()
+	cmd := exec.CommandContext(ctx, os.Args[0], "list")
 	cmd.Env = append(os.Environ(), "VERIF_C09_CLIENT_ONE="+string(b))
 	outB, err := cmd.CombinedOutput()
-	_, done, _ := xAbsorb(c, string(outB))
-	if !done {
-		c.ViolateObserved("client|process-crash|"+cs.key(), fmt.Sprintf("the process died (not a recoverable panic) in the probe exchanges after the history %s: %v; %s", cs.key(), err, crashLine(string(outB))), Case{Placement: "client", Client: &cs})
+	at, done, _ := xAbsorb(c, string(outB))
+	if done {
+		return
 	}
+	if at < 0 {
+		// the worker never reached the case (it could not be started): nothing was observed about hertz
+		c.Note(fmt.Sprintf("client-exchange part: a worker process did not start (%v)", err))
+		c.Cap("client-exchange part: worker process did not start")
+		return
+	}
+	what := "died (not a recoverable panic)"
+	if ctx.Err() != nil {
+		what = "hung for three minutes"
+	}
+	c.ViolateObserved("client|process-crash|"+cs.key(), fmt.Sprintf("the process %s in the probe exchanges after the history %s: %v; %s", what, cs.key(), err, crashLine(string(outB))), Case{Placement: "client", Client: &cs})
 }
